@@ -98,6 +98,18 @@ tick) the simulation task must have ended within STOP_BOUND = 0.25 virtual secon
 met by an initialisation routine that runs early because of a pending event is a fatal
 initialisation error (verdict 'abort'), as for any other initialisation error.
 
+Seeded changes C11-s11 (save_persistent_state() lets get_state() of a still uninitialised
+block escape after a conditional event that resolved to 'no event') and C11-s12 (DataEdit
+goes on with the next step after a rejecting modify()) broke "a filter rejection / a
+conditional event resolving to 'no event' never stops the simulation" in configurations the
+generator did not have. Now half of the runs have a persistent storage (SimStorage) with 60 %
+of the Input/Counter/FSM blocks persistent; 12 % of the value carrying edges get one DataEdit
+filter of 2-3 chained steps (modify() rejecting / deleting by value, add, setdefault) with the
+rejecting step mostly not last; and a start-up that fails although the model sees nothing
+that could stop it (no refusal, no error, every block initialised) is a violation
+(stopped-without-cause/start-up; this direction never disagreed in > 5 M runs; the other
+disagreements stay counted only).
+
 Corrections made while building (false alarms of the harness, not of edzed):
   - a mutant with unbounded event recursion ended in Python's RecursionError at a process
     dependent depth (non-deterministic digests): nesting watchdog at 40 open deliveries.
@@ -111,6 +123,7 @@ import copy
 
 from simkit import seams
 from simkit.runner import Run, PlanError, canon, gen_knobs
+from simkit.storage import SimStorage
 from models import eventflow_model as efm
 from checks import fsmlib
 
@@ -125,7 +138,8 @@ RULE = ("one run = 2-6 blocks (forwarding probes, Input, Counter, generated FSM 
         "of them - exit actions / condition functions that send events to the FSM itself or "
         "to other blocks, Repeat, "
         "OutputFunc with on_success/on_error) wired by a random directed event graph (dag / ring "
-        "/ diamond / free incl. self-loops) with filters (veto, value dependent, edit) and "
+        "/ diamond / free incl. self-loops) with filters (veto, value dependent, edit, chained "
+        "DataEdit steps with rejecting modify) and "
         "EventCond (incl. None branches) on the edges, started, then driven by 1-4 external "
         "events (valid, unknown type, missing parameter; in 20 % of the runs the first ones "
         "arrive while the simulator waits for 2-3 slow init_async tasks), each followed by a "
@@ -141,6 +155,7 @@ REACH_EXPECTED = [
     'nested_param_abort', 'handler_error_abort', 'early_return', 'unchanged_no_event',
     'diamond', 'via_repeat', 'via_ofunc', 'followup_all_ok', 'second_event_after_failure',
     'repeat_tick_delivery', 'refused_tick',
+    'dataedit_reject_nonfinal', 'cond_none_uninitialised_persistent',
     'async_init_window_event', 'refused_in_async_init', 'stopped_promptly',
     'exit_action_sends', 'exit_action_intermediate_sends', 'cond_function_sends',
     'refused_from_exit_action', 'refused_from_intermediate_exit', 'refused_from_cond_function',
@@ -160,6 +175,8 @@ ASSUMPTIONS = [
     "model covers the synchronous pass-through of a Repeat; in 40 % of the runs with a Repeat "
     "two repetitions are let through afterwards, judged by the monitor and the follow-up "
     "events only; Repeat -> Repeat edges are excluded (suspected defect F1, C18)",
+    "in half of the runs a persistent storage is configured and most Input/Counter/FSM blocks "
+    "are persistent (state saved after every event); the storage starts empty",
     "OutputFunc is used with f_args=() (its documented precondition: the put data contain all "
     "listed keys)",
 ]
@@ -307,6 +324,36 @@ def _gen_edge(rng, blocks, src, dst, trigger, p_unknown, quiet):
         filters.append('nfu')
     if len(filters) > 1 and rng.random() < 0.3:
         rng.shuffle(filters)
+    if _has_value(trigger) and rng.random() < 0.12:
+        # one DataEdit filter with 2-3 chained steps; a rejecting modify() is mostly NOT the
+        # last step. It comes first: modify() needs the 'value' item.
+        steps = []
+        for _ in range(rng.choice([2, 2, 3])):
+            r = rng.random()
+            if r < 0.3:
+                steps.append(['rej_eq', rng.choice(VALUES)])
+            elif r < 0.45:
+                steps.append(['rej_falsy'])
+            elif r < 0.6:
+                steps.append(['add', rng.choice(VALUES)])
+            elif r < 0.8:
+                steps.append(['setdef', rng.choice(VALUES)])
+            else:
+                steps.append(['del_eq', rng.choice(VALUES)])
+        if not any(st[0].startswith('rej') for st in steps[:-1]) and rng.random() < 0.7:
+            steps[0] = rng.choice([['rej_eq', rng.choice(VALUES)], ['rej_falsy']])
+        # (a modify step after a deleting step would be used against its documentation)
+        seen_del = False
+        clean = []
+        for st in steps:
+            if seen_del and st[0] in ('rej_eq', 'rej_falsy', 'del_eq'):
+                st = ['setdef', rng.choice(VALUES)]
+            if st[0] == 'del_eq':
+                seen_del = True
+            elif st[0] in ('add', 'setdef'):
+                seen_del = False
+            clean.append(st)
+        filters.insert(0, {'edit': clean})
     return {'dst': dst['name'], 'ev': ev, 'filters': filters}
 
 
@@ -504,6 +551,12 @@ def gen(rng, tier, index=0):
         and rng.random() < 0.4
     plan = {'knobs': knobs, 'blocks': circ['blocks'], 'shape': circ['shape'], 'ext': ext,
             'tick': tick}
+    if rng.random() < 0.5:
+        # persistent state: the blocks that support it save their state after every event
+        plan['storage'] = True
+        for b in circ['blocks']:
+            if b['kind'] in ('input', 'counter', 'fsm') and rng.random() < 0.6:
+                b['persistent'] = True
     if rng.random() < 0.2:
         # the first external event(s) arrive while the simulator still waits for 2-3 blocks
         # with a slow asynchronous initialisation (different durations, some time out)
@@ -564,6 +617,29 @@ def mk_filter(f):
         return edzed.DataEdit.add(value=f['set'])
     if isinstance(f, dict) and 'setdef' in f:
         return edzed.DataEdit.setdefault(value=f['setdef'])
+    if isinstance(f, dict) and isinstance(f.get('edit'), list) and f['edit']:
+        edit = edzed.DataEdit      # the first step is a class method call, the others chain
+        for step in f['edit']:
+            if not isinstance(step, list) or not step:
+                raise PlanError('bad edit step')
+            op = step[0]
+            if op == 'rej_falsy':
+                edit = edit.modify('value', lambda v: v if v else edzed.DataEdit.REJECT)
+            elif op == 'rej_eq' and len(step) == 2:
+                edit = edit.modify(
+                    'value', lambda v, _k=step[1]: edzed.DataEdit.REJECT if v == _k else v)
+            elif op == 'del_eq' and len(step) == 2:
+                edit = edit.modify(
+                    'value', lambda v, _k=step[1]: edzed.DataEdit.DELETE if v == _k else v)
+            elif op == 'add' and len(step) == 2:
+                edit = edit.add(value=step[1])
+            elif op == 'setdef' and len(step) == 2:
+                edit = edit.setdefault(value=step[1])
+            elif op == 'del':
+                edit = edit.delete('value')
+            else:
+                raise PlanError(f"unknown edit step {step!r}")
+        return edit
     raise PlanError(f"unknown filter {f!r}")
 
 
@@ -721,19 +797,20 @@ def build(plan, ctx):
         for t in ('on_output', 'on_every_output'):
             if ev.get(t):
                 common[t] = ev[t]
+        pers = {'persistent': True} if b.get('persistent') and plan.get('storage') else {}
         try:
             if kind == 'probe':
                 blk = Probe(name, x_mode=b.get('mode'), x_fwd=ev.get('fwd', []), x_st={'n': 0},
                             **common)
             elif kind == 'input':
-                kw = {}
+                kw = dict(pers)
                 if 'initdef' in b:
                     kw['initdef'] = b['initdef']
                 if b.get('allowed') is not None:
                     kw['allowed'] = b['allowed']
                 blk = edzed.Input(name, **kw, **common)
             elif kind == 'counter':
-                kw = {}
+                kw = dict(pers)
                 if 'initdef' in b:
                     kw['initdef'] = b['initdef']
                 blk = edzed.Counter(name, modulo=b.get('modulo'), **kw, **common)
@@ -757,7 +834,7 @@ def build(plan, ctx):
                 blk = edzed.OutputFunc(name, func=func, f_args=(), on_success=ev.get('on_success'),
                                        on_error=ev.get('on_error'), x_st=st, **common)
             elif kind == 'fsm':
-                kw = dict(common)
+                kw = dict(common, **pers)
                 if ev.get('on_notrans'):
                     kw['on_notrans'] = ev['on_notrans']
                 for t, events in ev.items():
@@ -844,6 +921,8 @@ def execute(plan, trace=False):
         except (ValueError, KeyError, TypeError) as err:
             raise PlanError(f"model: {err}") from None
         ctx = {'stack': [], 'actx': [], 'real': None}
+        if plan.get('storage'):
+            edzed.get_circuit().set_persistent_data(SimStorage(clock=run.now))
         real = build(plan, ctx)
         if plan.get('ainit'):
             # blocks with a slow asynchronous initialisation keep the start-up open
@@ -973,6 +1052,9 @@ def execute(plan, trace=False):
             for tag, probe in (('filter_veto', 'filter_veto'), ('cond_none', 'cond_none'),
                                ('early_return', 'early_return'),
                                ('cond_resolved', 'cond_resolved'),
+                               ('edit_reject_nonfinal', 'dataedit_reject_nonfinal'),
+                               ('cond_none_uninit_persistent',
+                                'cond_none_uninitialised_persistent'),
                                ('unchanged_output_no_event', 'unchanged_no_event'),
                                ('act_exit_first', 'exit_action_sends'),
                                ('act_exit_intermediate', 'exit_action_intermediate_sends'),
@@ -1150,10 +1232,20 @@ def execute(plan, trace=False):
                 obs = 'fail'
             run.log('init', obs, canon(init_err), exp['verdict'], exp.get('at'), exp.get('why'))
             note_reach(exp)
+            was_precise = info['precise'] and not model.imprecise
             info['precise'] = True
             if obs != exp['verdict']:
                 run.fired('init_model_mismatch')
                 info['precise'] = False
+                if obs == 'fail' and exp['verdict'] == 'ok' and was_precise:
+                    # Nothing documented explains this failure: no refusal, no error in a
+                    # handler or initialisation routine, every block gets its output. (The
+                    # other disagreements may be a matter of the undocumented initialisation
+                    # order and are only counted.)
+                    run.violate('C11/stopped-without-cause/start-up',
+                                f"the start-up failed ({canon(init_err)}) although no event was "
+                                "refused and filters / conditional events resolving to 'no "
+                                "event' / rejected values are the only things that happened")
             if obs == 'ok':
                 if info['precise'] and canon(model.outputs()) != {n: real_state(s, b)
                                                           for n, (s, b) in real.items()}:
